@@ -122,6 +122,16 @@ register('C12', 'p_update', 'c12',
          'update queues nothing and that the written entry set does not depend on enumeration order.',
          ORACLE + ['kernel: st_mtime_ns changes when a file is written (files are aged to a fixed old time between the runs)'])
 
+register('C13', 'p_update', 'c13',
+         '(1) random consistent trees (as C01) with 0-2 mutations of data files; each tree in four layouts: as generated and three random assignments of '
+         '{plain, gz, bz2, lzma, xz} to every sub-Manifest (parents rewritten with the new name and true digests, without gemato); the same verification / lookup '
+         'operations on all four must give identical results, for /repo and for the model; (2) trees with one Manifest per directory in a random layout: update, forced '
+         'save, then two saves with watermarks drawn from {0, 1, 10^6} and size-1/size/size+1 of every sub-Manifest (sizes measured in a first run), every target '
+         'format, forced and unforced, then a fresh verification; checked: compressed iff size >= watermark, top-level Manifest untouched, one file per logical '
+         'Manifest, no leftovers, no dangling MANIFEST entries; non-trivial = distinct group / case',
+         'Theorems in Properties/C13.v (reading is transparent; the policy of every profile); the runs decide the whole-tree clauses.',
+         ORACLE + ['codecs: the bytes produced by gzip/bz2/lzma decompress to the text written (exercised on the real files)'])
+
 # ---- MANIFEST metadata per claimed property ------------------------------------------------
 NOT_APPLICABLE = {}
 META = {
@@ -216,6 +226,13 @@ META = {
               '(C12_sorted_dump_canonical, C12_sorted_dump_idempotent), likewise the checksum-name order. PARTIAL: that a second update queues nothing and that the written entry set is '
               'independent of the enumeration order is decided on generated trees (queue + st_mtime_ns of every file; paired runs with permuted scandir order and permuted old Manifests).',
    level_note='About Model/Update.v save_manifests and Py/PyStr.v py_sorted (= save_manifest\'s sort); the deterministic gzip header is exercised on the implementation (compressed bytes are an oracle).'),
+ 'C13': dict(engine='coq+tree', design_ref='DESIGN.md section 5 C13',
+   technique='Coq theorems (transparent read under the codec law; compression policy of every profile regenerated from profile.py) + cross-layout differential runs and watermark boundary runs',
+   level_text='Proved in Coq for all inputs: reading a compressed Manifest yields the entries of the decompressed text, independent of the storage format (C13_read_transparent); every profile '
+              'compresses iff watermark <= uncompressed size, never the file named Manifest, old-ebuild never a Manifest with EBUILD entries (C13_policy_*, C13_top_level_never; about the '
+              'translation of gemato/profile.py made on this run). PARTIAL: identical verification/lookup results across whole layouts and the post-save clauses (one file per logical Manifest, '
+              'parents reference the new name, tree verifies) are decided on generated trees with watermarks at size-1/size/size+1.',
+   level_note='About Model/Loader.v read_manifest and Gen/Profile.v; codecs are oracles (decompress(compress(x)) = x is a premise of the theorem and exercised on real files).'),
  'C09': dict(engine='coq+text', design_ref='DESIGN.md section 5 C09',
    technique='Coq theorems (totality of the parser result type by induction over lines; per-class rejection lemmas) + differential runs',
    level_text='Proved in Coq for every text: load returns entries, ManifestSyntaxError or ManifestUnsignedData and nothing else; accepted entries '
